@@ -168,8 +168,12 @@ defjvp(
 )
 defjvp(
     anp.linspace,
-    lambda g, ans, start, stop, *args, **kwargs: match_complex(ans, anp.linspace(g, 0, *args, **kwargs)),
-    lambda g, ans, start, stop, *args, **kwargs: match_complex(ans, anp.linspace(0, g, *args, **kwargs)),
+    lambda g, ans, start, stop, *args, **kwargs: match_complex(
+        ans, anp.linspace(g, anp.zeros_like(stop), *args, **kwargs)
+    ),
+    lambda g, ans, start, stop, *args, **kwargs: match_complex(
+        ans, anp.linspace(anp.zeros_like(start), g, *args, **kwargs)
+    ),
 )
 
 
